@@ -23,7 +23,7 @@ from ..sut import HarnessError
 
 ID = "C12"
 TIERS = {
-    "quick": {"seeds": 8, "per_sink": 2, "random": 1200, "wall_s": 200},
+    "quick": {"seeds": 8, "per_sink": 3, "random": 1200, "wall_s": 200},
     "thorough": {"seeds": 32, "per_sink": 12, "random": 12000,
                  "wall_s": 3000},
 }
@@ -58,6 +58,8 @@ NEEDS_STEPS = False
 STRS = ["a", "b", "c", "aa", "ab", "ba", "zz", "hello", "x1", "Key", "key",
         "k2", "world", "Q", "m", "n0", "foo", "bar", "baz", "qux"]
 INTS = [0, 8, 16, 24, 32, 1, 9, 17, 7, 100, 64, 128]
+DECS = ["0.1", "0.2", "0.3", "0.7", "1.1", "2.2", "3.3", "0.5", "2.5", "7.7",
+        "10000000000000000.0", "0.0000001", "123456789.123"]
 MIXED = ["'s1'", "'s2'", "3", "11", "TRUE", "FALSE", "NULL", "2.5",
          "[1, 'a']", "'t'", "-4", "[]"]
 FILLERS = ["1", "'a'", "[1, 2]", "fn(x) x", "fn(a, b) a", "TRUE", "2",
@@ -124,6 +126,13 @@ def syntactic_sinks(kind):
     add("error-value", "error c")
     add("catch-value", "do error c; catch c2 'no'; catch c 'yes'; end")
     add("json-ish", "string([c, <<<1 => c>>>])")
+    add("error-in-call", "do def f_(a, b) error 'x'; f_(c, c2); end")
+    add("error-in-nested-call", "do def g_(a) 1 / 0; def f_(a) g_([a]); "
+        "f_(c); end")
+    add("for-destructure-elements", "for [p, q, r] in [c, c2, c3] do "
+        "print(string(p) + ',' + string(q) + ',' + string(r) + '|'); end")
+    add("for-destructure-set-of", "for [p, q] in <<c, c2>> do "
+        "print(string(p) + ',' + string(q) + '|'); end")
     # comprehensions whose result or side effects depend on the order in
     # which the source is enumerated (colliding keys, output, state)
     add("map-compr-colliding", "<<<length(string(x)) => x for x in c>>>")
@@ -187,6 +196,13 @@ def syntactic_sinks(kind):
         add("deref-default", "[c['a', 'dflt'], c['nope', 'dflt']]")
         add("put-remove", "do put(c, 'zzz', 1); remove(c, 'zzz'); "
             "string(c); end")
+        # observe, change through every mutation path, observe again
+        add("observe-assign-observe", "do def a_ = string(c); c['zq'] = 1; "
+            "c['A0'] = 2; [a_, string(c), [...c], string(object(c))]; end")
+        add("observe-put-observe", "do def a_ = [...c]; put(c, 'zq', 1); "
+            "c['A0'] = 2; remove(c, 'zq'); [a_, [...c], string(c)]; end")
+        add("observe-compound", "do def a_ = string(c); c['zq'] = 1; "
+            "c['zq'] += 1; [a_, string(c), [k for k in keys c]]; end")
     else:
         add("for-destructured",
             "for [p, q] in <<[x, 1] for x in c>> do print(string(p) + "
@@ -233,9 +249,12 @@ def make_container(rng, kind, cls):
 
 def _make_container(rng, kind, cls):
     if cls == "str":
-        elems = [lit(x) for x in rng.sample(STRS, rng.randrange(2, 12))]
+        elems = [lit(x) for x in rng.sample(STRS, rng.choice(
+            [2, 3, 4, 5, 6, 8, 10, 12, 17, 20]))]
     elif cls == "int":
         elems = [lit(x) for x in rng.sample(INTS, rng.randrange(2, 9))]
+    elif cls == "dec":
+        elems = rng.sample(DECS, rng.randrange(3, 9))
     elif cls == "mixed":
         elems = rng.sample(MIXED, rng.randrange(2, 9))
     elif cls == "bool":
@@ -299,6 +318,8 @@ def make_program(rng, pid_, sink, tpl, kind, cls):
     e2 = rng.sample(elems, max(1, len(elems) // 2))
     if cls in ("str", "mixed", "bool", "datemix"):
         e2 = e2 + ["'other'"]
+    elif cls == "dec":
+        e2 = e2 + ["9.25"]
     else:
         e2 = e2 + ["5"]
     A, B = rng.choice(FILLERS), rng.choice(FILLERS)
@@ -342,8 +363,11 @@ def build_batch(base_seed, tier):
         sinks = syntactic_sinks(kind) + function_sinks(names)
         for sink, tpl in sinks:
             for rep in range(cfg["per_sink"]):
-                cls = "str" if rep == 0 else rng.choice(
-                    ["str", "str", "int", "mixed", "bool"])
+                # every sink sees a string container, a mixed one and a
+                # numeric one; further repetitions are drawn at random
+                cls = ["str", "mixed", rng.choice(["dec", "int"])][rep] \
+                    if rep < 3 else rng.choice(
+                        ["str", "str", "int", "mixed", "bool", "dec"])
                 progs.append(make_program(rng, n, sink, tpl, kind, cls))
                 n += 1
     allsinks = {k: syntactic_sinks(k) + function_sinks(names)
@@ -354,7 +378,7 @@ def build_batch(base_seed, tier):
         if rng.random() < 0.5:
             sink, tpl = rng.choice(syntactic_sinks(kind))
         cls = rng.choice(["str", "str", "int", "mixed", "mixed", "bool",
-                          "datemix"])
+                          "datemix", "dec"])
         progs.append(make_program(rng, n, sink, tpl, kind, cls))
         n += 1
     return progs, len(names)
@@ -400,7 +424,8 @@ def run_programs(progs):
                         v = it.interpret(src, "p", env)
                         obs = ("val", _s(v))
                     except CklRuntimeError as e:
-                        obs = ("rt", _s(e.value), _s(e.msg), _s(e.pos))
+                        obs = ("rt", _s(e.value), _s(e.msg), _s(e.pos),
+                               tuple(_s(x) for x in (e.stacktrace or [])))
                     except CklSyntaxError as e:
                         obs = ("syn", _s(e.msg))
                     except steps.StepBudgetExceeded:
